@@ -10,7 +10,8 @@ start / stop / final block, every cursor and resolver answer — no bound.
 Setting of most theorems: `hd : buildRequestDetails env m req = .ok (d, u)` (what
 `pipeline.BuildRequestDetails` returned) and `hp : planOfDetails env m d = .ok p` (what
 `plan.BuildTier1RequestPlan` returned when called the way `Tier1Service.blocks` calls it).
-`tier1_ok` shows that a successful `tier1` run provides both, plus the two side conditions some theorems
+`m.reqStores` is the list of required stores: the stores the output module depends on plus the output module
+itself when it is of kind store (`StoresDownTo`).  `tier1_ok` shows that a successful `tier1` run provides both, plus the two side conditions some theorems
 name: `m.graphOk env.fsb` (`exec.NewOutputModuleGraph` accepted the modules) and `m.out ≤ d.start`
 (`ValidateRequestStartBlock` passed).
 -/
@@ -107,7 +108,7 @@ theorem dev_handoff_le_start (hd : buildRequestDetails env m req = .ok (d, u))
   rw [hprod] at hdev
   simp only [computeLinearHandoffP, hdev]
   have a := sub_mod_le r.start env.seg
-  cases hsra : reprocStateRequired r.start m.stores with
+  cases hsra : reprocStateRequired r.start m.reqStores with
   | none => simp
   | some x =>
     have := (reproc_some hsra).2.1
@@ -206,14 +207,15 @@ theorem plan_partition (hd : buildRequestDetails env m req = .ok (d, u))
 
 /-! ### (b) stores are built exactly up to the hand-off -/
 
-/-- `BuildStores` is set iff some required store has its (effective) initial block below the hand-off — a
+/-- `BuildStores` is set iff some required store (`m.reqStores`: the stores the output module depends on and,
+when it is itself a store, the output module) has its (effective) initial block below the hand-off — a
 store that has to be back-filled —; it then starts at the lowest store initial block and ends at the
 hand-off, never past it. -/
 theorem stores_up_to_handoff (hp : planOfDetails env m d = .ok p) (hg : m.graphOk env.fsb = true) :
-    (p.buildStores ≠ none ↔ ∃ s ∈ m.stores, mapInit env.fsb s < d.handoff) ∧
+    (p.buildStores ≠ none ↔ ∃ s ∈ m.reqStores, mapInit env.fsb s < d.handoff) ∧
     (∀ r, p.buildStores = some r →
-      r.stop = d.handoff ∧ (∃ s ∈ m.stores, mapInit env.fsb s = r.start) ∧
-      ∀ s ∈ m.stores, r.start ≤ mapInit env.fsb s) := by
+      r.stop = d.handoff ∧ (∃ s ∈ m.reqStores, mapInit env.fsb s = r.start) ∧
+      ∀ s ∈ m.reqStores, r.start ≤ mapInit env.fsb s) := by
   have hb := buildPlan_ok hp
   have hbs := hb.2.2.2.1
   cases hls : m.lowestStoresInitBlock env.fsb with
@@ -224,7 +226,7 @@ theorem stores_up_to_handoff (hp : planOfDetails env m d = .ok p) (hg : m.graphO
     simp only [Bool.false_eq_true, false_and, and_false, ite_false] at hbs
     rw [hbs, hnil]; simp
   | some ls =>
-    have hne : m.stores ≠ [] := fun hc => by
+    have hne : m.reqStores ≠ [] := fun hc => by
       rw [(lowestStores_none_iff env.fsb m).2 hc] at hls; simp at hls
     have hss : m.scheduleStores = true := by
       simp only [Mods.scheduleStores, Bool.not_eq_true', List.isEmpty_eq_false_iff]; exact hne
@@ -266,11 +268,11 @@ theorem handoff_on_boundary (hd : buildRequestDetails env m req = .ok (d, u))
   have hbs := hb.2.2.2.1
   have hw := hb.2.2.2.2.2.1
   have hc := handoff_cases req.production r.start req.stop env.final
-    (reprocStateRequired r.start m.stores) env.seg hseg
+    (reprocStateRequired r.start m.reqStores) env.seg hseg
   simp only [] at hc
   rw [← hh, ← hs] at hc
   -- a lower bound `x ≤ every store` with `handoff ≤ x` rules out BuildStores
-  have noStores : ∀ x, (∀ s ∈ m.stores, x ≤ s) → d.handoff ≤ x → p.buildStores = none := by
+  have noStores : ∀ x, (∀ s ∈ m.reqStores, x ≤ s) → d.handoff ≤ x → p.buildStores = none := by
     intro x hx hle
     rw [hbs]
     cases hls : m.lowestStoresInitBlock env.fsb with
@@ -300,12 +302,12 @@ the initial block of the lowest required store, which lies below the start block
 segment boundary.  In the last two cases no required store starts below the hand-off. -/
 theorem handoff_value (hd : buildRequestDetails env m req = .ok (d, u)) (hseg : 0 < env.seg) :
     d.handoff % env.seg = 0 ∨
-    (d.handoff = d.start ∧ ∀ s ∈ m.stores, d.start ≤ s) ∨
-    (d.production = false ∧ d.handoff ∈ m.stores ∧ d.handoff < d.start ∧
-      d.start - d.start % env.seg < d.handoff ∧ ∀ s ∈ m.stores, d.handoff ≤ s) := by
+    (d.handoff = d.start ∧ ∀ s ∈ m.reqStores, d.start ≤ s) ∨
+    (d.production = false ∧ d.handoff ∈ m.reqStores ∧ d.handoff < d.start ∧
+      d.start - d.start % env.seg < d.handoff ∧ ∀ s ∈ m.reqStores, d.handoff ≤ s) := by
   obtain ⟨r, _, hs, _, _, hprod, _, _, _, hh, _, _⟩ := buildRequestDetails_ok hd
   have hc := handoff_cases req.production r.start req.stop env.final
-    (reprocStateRequired r.start m.stores) env.seg hseg
+    (reprocStateRequired r.start m.reqStores) env.seg hseg
   simp only [] at hc
   rcases hc with hc | ⟨heq, hsra⟩ | ⟨hdev, hsra, hle⟩
   · left; rw [hh]; exact hc
@@ -324,7 +326,7 @@ theorem handoff_value (hd : buildRequestDetails env m req = .ok (d, u)) (hseg : 
       apply Nat.lt_of_not_le; intro hcontra
       apply hb
       have hv : d.handoff = (computeLinearHandoffP req.production r.start req.stop env.final
-          (reprocStateRequired r.start m.stores) env.seg).2 := hh
+          (reprocStateRequired r.start m.reqStores) env.seg).2 := hh
       rw [hdev, hsra] at hv
       simp only [computeLinearHandoffP, Bool.false_eq_true, ite_false, Option.getD_some] at hv
       have hle' : d.handoff ≤ r.start := by omega
@@ -877,21 +879,26 @@ theorem undo_only_if_forked (hd : buildRequestDetails env m req = .ok (d, u)) (x
 
 def envEx : Env := ⟨10, 0, some 100, none, .error⟩
 
-example : (tier1 envEx ⟨[12, 22], 0⟩ ⟨25, .none, 0, false⟩).toOption.map (fun o => (o.d.handoff, o.plan.buildStores))
+example : (tier1 envEx ⟨[12, 22], 0, false⟩ ⟨25, .none, 0, false⟩).toOption.map (fun o => (o.d.handoff, o.plan.buildStores))
     = some (20, some ⟨12, 20⟩) := by decide
-example : (tier1 envEx ⟨[22, 12], 0⟩ ⟨25, .none, 0, false⟩).toOption.map (fun o => (o.d.handoff, o.plan.buildStores))
+example : (tier1 envEx ⟨[22, 12], 0, false⟩ ⟨25, .none, 0, false⟩).toOption.map (fun o => (o.d.handoff, o.plan.buildStores))
     = some (20, some ⟨12, 20⟩) := by decide
 /-- production: stores back-filled to the final block's boundary, cached outputs read for `[25,47)` -/
-example : (tier1 envEx ⟨[12, 22], 5⟩ ⟨25, .none, 47, true⟩).toOption.map
+example : (tier1 envEx ⟨[12, 22], 5, false⟩ ⟨25, .none, 47, true⟩).toOption.map
     (fun o => (o.d.handoff, o.plan.buildStores, o.plan.writeExecOut, o.plan.readExecOut, o.plan.linear))
     = some (50, some ⟨12, 50⟩, some ⟨20, 50⟩, some ⟨25, 47⟩, none) := by decide
 /-- a unit of the map stage and the range tier 2 recomputes for it -/
-example : (tier1 envEx ⟨[12, 22], 5⟩ ⟨25, .none, 47, true⟩).toOption.map
+example : (tier1 envEx ⟨[12, 22], 5, false⟩ ⟨25, .none, 47, true⟩).toOption.map
     (fun o => o.plan.unitOutcome .map 5 2) = some (.job (tier2Range 10 0 2 5)) := by decide
 /-- a forked cursor: undo signal for the junction 18, restart at 19 -/
-example : (tier1 ⟨10, 0, none, none, .ok (some ⟨18, 0⟩) ⟨25, 0⟩⟩ ⟨[], 0⟩
+example : (tier1 ⟨10, 0, none, none, .ok (some ⟨18, 0⟩) ⟨25, 0⟩⟩ ⟨[], 0, false⟩
       ⟨0, .some ⟨.new, ⟨20, 1⟩, ⟨15, 0⟩, ⟨20, 1⟩⟩, 30, false⟩).toOption.map (fun o => (o.d.start, o.undo.map (·.lastValid)))
     = some (19, some ⟨18, 0⟩) := by decide
+/-- an output module of kind store (initial block 3, no other store), development mode, start 13, segment 5: the
+output store is itself a required store, so the hand-off is the boundary 10 and `BuildStores = [3,10)` (were
+it left out of `reprocStateRequired`, the hand-off would be 13 and `BuildStores = [3,13)`, off the boundary). -/
+example : (tier1 ⟨5, 0, none, none, .error⟩ ⟨[], 3, true⟩ ⟨13, .none, 0, false⟩).toOption.map
+    (fun o => (o.d.handoff, o.plan.buildStores)) = some (10, some ⟨3, 10⟩) := by decide
 /-- an impossible request -/
 example : Impossible envEx ⟨25, .none, 0, true⟩ → True := fun _ => trivial
 example : Impossible ⟨10, 0, none, none, .error⟩ ⟨25, .none, 0, true⟩ := .finalUnknownOpenEnded ⟨rfl, rfl, rfl⟩
